@@ -3,6 +3,7 @@ package bsonkit
 import (
 	"bytes"
 	"math"
+	"math/big"
 	"strings"
 
 	"github.com/shopspring/decimal"
@@ -65,10 +66,7 @@ func compareNumbers(lv, rv interface{}) int {
 		case int64:
 			return compareFloat64ToInt64(l, r)
 		case primitive.Decimal128:
-			// safeFloatToDec guards against float64 NaN/±Inf, which would
-			// otherwise panic decimal.NewFromFloat (collapses to zero —
-			// non-finite ordering is a known imprecision, see math.go TODO)
-			return safeFloatToDec(l).Cmp(safeD128ToDec(r))
+			return compareWithDecimal128(l, r)
 		}
 	case int32:
 		switch r := rv.(type) {
@@ -79,7 +77,7 @@ func compareNumbers(lv, rv interface{}) int {
 		case int64:
 			return compareInt64s(int64(l), r)
 		case primitive.Decimal128:
-			return decimal.NewFromInt32(l).Cmp(safeD128ToDec(r))
+			return compareWithDecimal128(l, r)
 		}
 	case int64:
 		switch r := rv.(type) {
@@ -90,19 +88,83 @@ func compareNumbers(lv, rv interface{}) int {
 		case int64:
 			return compareInt64s(l, r)
 		case primitive.Decimal128:
-			return decimal.NewFromInt(l).Cmp(safeD128ToDec(r))
+			return compareWithDecimal128(l, r)
 		}
 	case primitive.Decimal128:
 		switch r := rv.(type) {
-		case float64:
-			return safeD128ToDec(l).Cmp(safeFloatToDec(r))
-		case int32:
-			return safeD128ToDec(l).Cmp(decimal.NewFromInt32(r))
-		case int64:
-			return safeD128ToDec(l).Cmp(decimal.NewFromInt(r))
-		case primitive.Decimal128:
-			return safeD128ToDec(l).Cmp(safeD128ToDec(r))
+		case float64, int32, int64, primitive.Decimal128:
+			return compareWithDecimal128(l, r)
 		}
+	}
+
+	panic("bsonkit: unreachable")
+}
+
+// compareWithDecimal128 compares two numbers of which at least one is a
+// Decimal128 by their exact mathematical value. Non-finite values are ordered
+// like non-finite doubles: NaN is smaller than everything else (and equal to
+// any other NaN), followed by -Infinity, all finite values and +Infinity.
+func compareWithDecimal128(lv, rv interface{}) int {
+	// order by special value rank first
+	lr, rr := numberRank(lv), numberRank(rv)
+	if lr != rr {
+		if lr < rr {
+			return -1
+		}
+		return 1
+	} else if lr != finiteNumber {
+		return 0
+	}
+
+	return exactDecimal(lv).Cmp(exactDecimal(rv))
+}
+
+const (
+	nanNumber = iota
+	negInfNumber
+	finiteNumber
+	posInfNumber
+)
+
+func numberRank(v interface{}) int {
+	switch n := v.(type) {
+	case float64:
+		if math.IsNaN(n) {
+			return nanNumber
+		} else if math.IsInf(n, -1) {
+			return negInfNumber
+		} else if math.IsInf(n, 1) {
+			return posInfNumber
+		}
+	case primitive.Decimal128:
+		if n.IsNaN() {
+			return nanNumber
+		} else if inf := n.IsInf(); inf < 0 {
+			return negInfNumber
+		} else if inf > 0 {
+			return posInfNumber
+		}
+	}
+
+	return finiteNumber
+}
+
+// exactDecimal converts a finite number to its exact decimal value. Doubles
+// are converted from their binary value (m / 2^k = m * 5^k / 10^k) instead of
+// their shortest decimal rendering, as the latter is not order preserving.
+func exactDecimal(v interface{}) decimal.Decimal {
+	switch n := v.(type) {
+	case int32:
+		return decimal.NewFromInt32(n)
+	case int64:
+		return decimal.NewFromInt(n)
+	case float64:
+		rat := new(big.Rat).SetFloat64(n)
+		k := int64(rat.Denom().BitLen() - 1)
+		num := new(big.Int).Exp(big.NewInt(5), big.NewInt(k), nil)
+		return decimal.NewFromBigInt(num.Mul(num, rat.Num()), int32(-k))
+	case primitive.Decimal128:
+		return safeD128ToDec(n)
 	}
 
 	panic("bsonkit: unreachable")
